@@ -196,6 +196,8 @@ def is_valid_time(val):
         if not_match_re('TM', val):
             raise IsValidError
 
+        if len(val) < 4:  # HHMM is the shortest time
+            raise IsValidError
         if val[0:2] > '23' or val[2:4] > '59':  # check hour, minute segment
             raise IsValidError
         elif len(val) > 4:  # time contains seconds
